@@ -235,11 +235,11 @@ func TestHarness(t *testing.T) {
 			}
 			if p := progress.Load(); p != last {
 				last, lastChange = p, time.Now()
-			} else if time.Since(lastChange) > 90*time.Second {
+			} else if time.Since(lastChange) > hx.StallLimit(90*time.Second) {
 				ops, _ := currentHistory.Load().([]string)
 				res.Report(hx.Finding{Kind: "violation", Property: "C19", History: ops,
 					Name: "C19 monitor: every call returns",
-					What: "the implementation did not reach the end of a step within 90 s of real time (blocked outside any channel wait)",
+					What: "the implementation did not reach the end of a step within the load-scaled stall limit (at least 240 s of real time) (blocked outside any channel wait)",
 					Sig:  hx.Sig("C19", "nfsreplay", "hang")})
 				res.ModelLines = drv.Lines
 				res.Write(o)
